@@ -9,9 +9,9 @@ import shutil
 import subprocess
 import time
 
-from common import VERIF, REPO, BUILD, env_offline, log
+from common import VERIF, REPO, BUILD, env_offline, log, crate_dir
 
-KDIR = os.path.join(VERIF, "engines", "kani")
+KDIR = crate_dir(os.path.join("engines", "kani"))
 KTARGET = os.path.join(BUILD, "kani")
 NTARGET = os.path.join(BUILD, "native")
 
